@@ -31,12 +31,14 @@ def run_dbg_cases(ctx, cases, tags, violations, profiles=("debug",), limit=10, n
     sigs, samples, hist = set(), [], {}
     vkeys = set()
     results = {}
+    if getattr(ctx, "impl_stall", None) is None:
+        ctx.impl_stall = 40       # a debugger session that gives no result for 40 s does not terminate (C16)
     for prof in profiles:
         ri, rm, crashes = ctx.run_both(cases, profile=prof, tag="dbg")
         results[prof] = (ri, rm)
         for c in crashes:
             idx = c.get("case_index")
-            violations.append({"kind": "implementation-crashed", "profile": prof,
+            violations.append({"kind": "implementation-does-not-terminate" if c.get("hung") else "implementation-crashed", "profile": prof,
                                "case": cases[idx] if idx is not None else None, "detail": c["tail"]})
         for ci, (a, b) in enumerate(zip(ri, rm)):
             if a is None:
